@@ -171,6 +171,19 @@ def gen_C16(rng, tier):
     for i in list(range(0, 61)) + [100, 255, 256, 1000, 65535, 1 << 32, U64]:
         lines.append('T fromconst %d' % i)
         lines.append('T constrt %d' % i)
+    # code -> identifier -> code keeps the codewords (the identifier table and the two conversion
+    # lists must agree with each other, not only each with itself)
+    for v in PARAMETERLESS:
+        for x in values(rng, tier, v, None, 6 if quick else 24):
+            for e in gen.ES:
+                lines.append('T crt %s %s %d' % (e, vk(v, None), x))
+    for v in PARAMETRIC:
+        for k in list(range(0, 13)) + [63]:
+            for x in values(rng, tier, v, k, 6 if quick else 24):
+                if x > max_value(v, k):
+                    continue
+                for e in gen.ES:
+                    lines.append('T crt %s %s %d' % (e, vk(v, k), x))
     # PartialEq: all pairs over a set that contains every literal of the arms and neighbours
     eks = [0, 1, 2, 3, 4, 5, 7, 8, 9, 10, 11, 16, 63]
     ecodes = [(v, None) for v in PARAMETERLESS] + [(v, k) for v in PARAMETRIC for k in eks]
